@@ -96,6 +96,44 @@
             let env = Environment::new();
             if let Err(e) = env.compile_expression(expr) { let _ = format!("{e} {e:#} {e:?} {e:#?} {}", e.display_debug_info()); }
         }
+        // errors in templates that are loaded lazily (loader) while another template renders keep their own source
+        {
+            let mut env = Environment::new();
+            env.set_debug(true);
+            env.set_loader(|name: &str| -> Result<Option<String>, crate::Error> {
+                Ok(match name {
+                    "outer.txt" => Some(format!("{}{{% include 'inner.txt' %}}", "line\n".repeat(100))),
+                    "outer2.txt" => Some("é\n{% extends 'inner.txt' %}".to_string()),
+                    "outer3.txt" => Some(format!("{}{{% from 'inner.txt' import m %}}", "x".repeat(600))),
+                    "mid.txt" => Some("\n\n{% include 'inner.txt' %}".to_string()),
+                    "outer4.txt" => Some("{% include 'mid.txt' %}".to_string()),
+                    "inner.txt" => Some("ok\n{{ 1 +* 2 }}".to_string()),
+                    "rt_inner.txt" => Some("a\nb\n{{ 1 // 0 }}".to_string()),
+                    "outer5.txt" => Some(format!("{}{{% include 'rt_inner.txt' %}}", "line\n".repeat(50))),
+                    _ => None,
+                })
+            });
+            for outer in ["outer.txt", "outer2.txt", "outer3.txt", "outer4.txt", "outer5.txt"] {
+                let e = env.get_template(outer).unwrap().render(()).unwrap_err();
+                let mut cur: Option<&(dyn std::error::Error + 'static)> = Some(&e);
+                let mut located = 0;
+                while let Some(x) = cur {
+                    if let Some(me) = x.downcast_ref::<crate::Error>() {
+                        let _ = format!("{me} {me:#} {me:?} {}", me.display_debug_info());
+                        if let (Some(r), Some(src)) = (me.range(), me.template_source()) {
+                            assert!(r.end <= src.len() && src.is_char_boundary(r.start) && src.is_char_boundary(r.end),
+                                    "{outer}: error in {:?} reports range {r:?} for a {}-byte source", me.name(), src.len());
+                            located += 1;
+                        }
+                        if let (Some(l), Some(src)) = (me.line(), me.template_source()) {
+                            assert!(l >= 1 && l <= src.lines().count().max(1) + 1, "{outer}: line {l} outside the source of {:?}", me.name());
+                        }
+                    }
+                    cur = x.source();
+                }
+                assert!(located >= 1 || outer == "outer5.txt", "{outer}: no located error in the chain: {e:?}");
+            }
+        }
         // beyond 65535 lines the line saturates but nothing panics and ranges stay valid
         let big = format!("{}{{{{ 'abc", "\n".repeat(70_000));
         let e = render_err(&big);
